@@ -187,6 +187,9 @@ def check_c10(chk, args):
                     if N is not None and N <= ml and ml > 0:
                         chk.nontrivial((vi, N, out))
     none_is_unlimited(chk)
+    # spec -> code: Printers.tla predicts the exact truncated text, '...and N more elements' comment included
+    from checks import values_checks as VC
+    VC.printers_binding(chk, vals, msls=(1, 1, 2, 3, 1000), name='truncation', per_value=2 if q else 4)
     caselist = list(cases.values())
     can = []
     for c in caselist[:: max(1, len(caselist) // 20)][:20]:
@@ -259,6 +262,7 @@ def depth_none_is_unlimited(chk):
     text, show the innermost leaf and no placeholder. Heights up to what the interpreter's recursion limit lets
     the unchanged printer reach (the limit is raised for the tallest ones)."""
     import sys
+    deep_cases = []
     wraps = {'lists': lambda v, i: [v], 'dicts': lambda v, i: {'k': v}, 'tuples': lambda v, i: (v, i),
              'mixed': lambda v, i: ([v], {'k': v}, (v,), [i, v])[i % 4]}
     old = sys.getrecursionlimit()
@@ -295,14 +299,23 @@ def depth_none_is_unlimited(chk):
                                   'height %d (%s): %r' % (h, desc['value'], {k: len(o) for k, o in texts.items()}), desc)
                 if texts:
                     chk.nontrivial(('deep', h, name))
+                if h <= 70 and isinstance(outs.get('depth=None'), str):
+                    # and TLC judges the depth=None text against PyTerm!CutSyn(value, height + 1) (= nothing cut)
+                    try:
+                        deep_cases.append(({'mode': 'cut', 'obs': pyterm.parse_output(outs['depth=None']),
+                                            'val': pyterm.value_term(v), 'subs': [], 'N': h + 1, 'notices': []},
+                                           dict(desc, config={'depth': None}, output=outs['depth=None'][:3000])))
+                    except pyterm.ParseError as e:
+                        chk.violation('C11.syntax', 'not an expression (%s): %r' % (e, desc), desc)
     finally:
         sys.setrecursionlimit(old)
+    return deep_cases
 
 
 def check_c11(chk, args):
     q = chk.tier == 'quick'
     rng = chk.rng
-    depth_none_is_unlimited(chk)
+    deep = depth_none_is_unlimited(chk)
     vals = universe(chk, 150 if q else 3000, depth=4)
     cases = {}
     meta = {}
@@ -336,6 +349,11 @@ def check_c11(chk, args):
                 meta[cid] = desc
                 if 0 < d <= h:
                     chk.nontrivial((vi, d))
+    for c, d in deep:
+        cid = len(cases) + 1
+        c['id'] = cid
+        cases[('deep', cid)] = c
+        meta[cid] = d
     caselist = list(cases.values())
     v, st = common.tlc_batch('TermTrace', CFG, caselist, os.path.join(chk.workdir, 'terms'), tags=('CUT',),
                              min_per_shard=300, heap='2g')
